@@ -303,6 +303,7 @@ fn main() {
     let mut r = Rng::new(a.seed);
     let n = if a.thorough { 6000 } else if a.extended { 3000 } else { 500 };
     let mut cases = corpus();
+    cases.extend(finding_witnesses(&["D22"])); // open finding D22-C19 exhibited at every seed (D14, D17, D28 are in corpus())
     for i in 0..n {
         if i % 4 == 3 {
             cases.push(gen_single(&mut r));
